@@ -83,6 +83,24 @@ def producers(pn):
     return out
 
 
+def ambiguous(pn, target, prod=None):
+    """some path reachable from `target` is produced by several statements (the file is not loadable by ninja: C06 findings);
+    the statements "of one build" are then not well defined"""
+    prod = prod if prod is not None else producers(pn)
+    seen, todo = set(), [target]
+    while todo:
+        t = todo.pop()
+        if t in seen:
+            continue
+        seen.add(t)
+        ps = prod.get(t, [])
+        if len(ps) > 1:
+            return True
+        for b in ps:
+            todo += b["inputs"] + b["order_only"]
+    return False
+
+
 def closure(pn, target):
     """all statements (as texts, in file order) reachable from `target` through inputs and order-only deps, plus their rules"""
     prod = producers(pn)
